@@ -21,6 +21,7 @@ def parseEv (t : String) : Option Ev :=
   | "wo" => some (.env .writeOut) | "we" => some (.env .writeErr)
   | "co" => some (.env .closeOut) | "ce" => some (.env .closeErr)
   | "int" => some (.env .interrupt) | "fo" => some (.env .faultOut) | "fe" => some (.env .faultErr)
+  | "bo" => some (.env .faultOut) | "be" => some (.env .faultErr)
   | _ => if t.startsWith "x" then (t.drop 1).toString.toInt?.map (fun rc => .env (.exit rc)) else none
 
 def showOutcome : Outcome → String
